@@ -81,13 +81,13 @@ pub fn spec_for(property: &str) -> Option<CheckSpec> {
         "C03" => CheckSpec {
             property: "C03".into(),
             level: "fault_enumeration",
-            profiles: vec![p("restart", 12), p("restart-sweep", 6), p("seq", 2), p("seq-deepindex", 1), p("conc", 3)],
+            profiles: vec![p("restart", 12), p("restart-sweep", 6), p("seq", 2), p("seq-deepindex", 1), p("conc", 3), p("crash-kill", 2)],
             thorough_extra: vec![p("restart-sweep-full", 4)],
             quick_runs: 5_000,
             thorough_runs: 200_000,
             quick_budget_s: 75,
             thorough_budget_s: 600,
-            nontrivial_rule: "sequential histories (incl. deletes into already indexed closed blobs, which make the on-disk index stale) with clean close + reopen (eager/lazy) at random points; between the sessions each index file may be removed, truncated (random length; in sweep runs every sampled truncation length of one index file, each followed by its own reopen), cut to the header, have its written flag cleared, or be replaced by an older copy of itself. Oracle after every reopen: init Ok, every data query of every key equals the model (and therefore the answers before the close), records_count unchanged, next_blob_id above every id ever seen, no panic. Thorough tier sweeps every byte length (restart-sweep-full). A share of the runs are concurrent histories (profile conc: equal timestamps written by several clients) closed and reopened with one index removed, so that the order of an index built in memory by concurrent writers is compared with the order regenerated from the blob. Non-trivial = >= 3 data operations, at least one index damage actually applied and at least one index completely written; distinct = distinct I/O event signature",
+            nontrivial_rule: "sequential histories (incl. deletes into already indexed closed blobs, which make the on-disk index stale) with clean close + reopen (eager/lazy) at random points; between the sessions each index file may be removed, truncated (random length; in sweep runs every sampled truncation length of one index file, each followed by its own reopen), cut to the header, have its written flag cleared, or be replaced by an older copy of itself. Oracle after every reopen: init Ok, every data query of every key equals the model (and therefore the answers before the close), records_count unchanged, next_blob_id above every id ever seen, no panic. Thorough tier sweeps every byte length (restart-sweep-full). A share of the runs are concurrent histories (profile conc: equal timestamps written by several clients) closed and reopened with one index removed, so that the order of an index built in memory by concurrent writers is compared with the order regenerated from the blob. The id clause (ids above every id ever present, including quarantined and ignored files) is also watched by the create monitor in a share of crash-kill runs, where unloadable blobs with the highest id occur (rule C07.id-reuse counts for C03 and C07). Non-trivial = >= 3 data operations, at least one index damage actually applied and at least one index completely written; distinct = distinct I/O event signature",
             nontrivial: nt_restart,
             assumptions: a,
             expected_probes: vec!["index_truncation_length_swept", "index_remove", "index_truncate", "index_stale", "index_clear_written", "index_header_only"],
@@ -151,13 +151,13 @@ pub fn spec_for(property: &str) -> Option<CheckSpec> {
         "C15" => CheckSpec {
             property: "C15".into(),
             level: "exploration",
-            profiles: vec![p("seq", 4), p("seq-maint", 4), p("seq-filter", 1), p("restart", 1), p("crash-kill", 2)],
+            profiles: vec![p("seq", 4), p("seq-maint", 4), p("seq-filter", 1), p("restart", 1), p("crash-kill", 2), p("conc", 2)],
             thorough_extra: vec![],
             quick_runs: 8_000,
             thorough_runs: 400_000,
             quick_budget_s: 60,
             thorough_budget_s: 600,
-            nontrivial_rule: "monitor at quiescent points of sequential histories (deletes into closed blobs, manual close/restore/create, rotation, restarts): records_count, records_count_detailed (as a set of (id,count)), records_count_in_active_blob, blobs_count, next_blob_id, corrupted_blobs_count, disk_used are compared with the physical record list derived from the tapped writes and with the directory listing. Non-trivial = >= 3 data operations and a successful lifecycle call or delete into a closed blob; distinct = distinct I/O event signature",
+            nontrivial_rule: "monitor at quiescent points of sequential histories (deletes into closed blobs, manual close/restore/create, rotation, restarts) and at the quiescent end of concurrent sessions (clients racing with manual and background close/create/restore): records_count, records_count_detailed (as a set of (id,count)), records_count_in_active_blob, blobs_count, next_blob_id, corrupted_blobs_count, disk_used are compared with the physical record list derived from the tapped writes and with the directory listing. Non-trivial = >= 3 data operations and a successful lifecycle call or delete into a closed blob; distinct = distinct I/O event signature",
             nontrivial: nt_maint,
             assumptions: a,
             expected_probes: vec!["settled_checkpoint", "try_restore_active_blob_ok"],
